@@ -900,12 +900,14 @@ impl Final {
 // ---------------------------------------------------------------------------------------------
 // rendering
 
+/// Adler-32 (RFC 1950)
 fn digest(b: &[u8]) -> u64 {
-    let mut acc: u64 = 7;
+    let (mut a, mut s): (u64, u64) = (1, 0);
     for x in b {
-        acc = (acc * 31 + (*x as u64)) % 4294967291;
+        a = (a + (*x as u64)) % 65521;
+        s = (s + a) % 65521;
     }
-    acc
+    s * 65536 + a
 }
 
 fn show_bytes(b: &[u8]) -> String {
